@@ -2,9 +2,11 @@ package main
 
 import (
 	"bytes"
+	"context"
 	"fmt"
 	"regexp"
 	"strconv"
+	"time"
 
 	lua "github.com/yuin/gopher-lua"
 	"github.com/yuin/gopher-lua/parse"
@@ -12,11 +14,12 @@ import (
 
 // The query functions are Lua code loaded as a separate chunk, so that they go through the
 // real debug library and do not disturb the line numbers of the program under test.
+// They are globals and use no upvalues, so that what they report does not itself depend on
+// the closure machinery under test.
 const prelude = `
-local getinfo, getlocal, setlocal, getupvalue, setupvalue = debug.getinfo, debug.getlocal, debug.setlocal, debug.getupvalue, debug.setupvalue
-local RI, RL, RU, RS, RF = RI, RL, RU, RS, RF
-local seen = {}
-local function enum(id, lvl, phase)
+getinfo, getlocal, setlocal, getupvalue, setupvalue = debug.getinfo, debug.getlocal, debug.setlocal, debug.getupvalue, debug.setupvalue
+seen = {}
+function enum(id, lvl, phase)
   local i = 1
   while true do
     local n, v = getlocal(lvl + 2, i)
@@ -26,7 +29,7 @@ local function enum(id, lvl, phase)
   end
   return i
 end
-local function enumup(id, lvl, phase, f)
+function enumup(id, lvl, phase, f)
   local j = 1
   while true do
     local n, v = getupvalue(f, j)
@@ -126,6 +129,11 @@ func runSource(src []byte) (res *runResult) {
 		Locals: map[key3][]obsBinding{}, Upvals: map[key3][]obsBinding{}, SetRet: map[int]*string{}, SetSeen: map[int]bool{}}
 	L := lua.NewState()
 	defer L.Close()
+	// a program that does not end (possible only when the interpreter misbehaves: every generated
+	// loop is bounded) is cut off; the cancellation error is then that run's observation
+	ctx, cancel := context.WithTimeout(context.Background(), 5*time.Second)
+	defer cancel()
+	L.SetContext(ctx)
 	defer func() {
 		if r := recover(); r != nil {
 			res.TopErr = fmt.Sprintf("GO PANIC: %v", r)
